@@ -121,3 +121,6 @@ Proof.
     repeat match goal with |- context[Z.eq_dec ?a ?b] => destruct (Z.eq_dec a b) end;
     try contradiction; try lia; rewrite ?Z.mod_small by lia; auto.
 Qed.
+
+Lemma pyeval_nonneg M e n v : pyeval M e n = Ok v -> 0 <= v.
+Proof. intros H. apply pyeval_sound in H. eapply InRange_nonneg; eauto. Qed.
